@@ -609,7 +609,11 @@ func (c *Connection) acceptRequest(ctx context.Context, msg *Request, msgBytes i
 		}
 	})
 	if err != nil {
-		c.processResult("acceptRequest", req, nil, err)
+		// Respond from a separate goroutine: the read loop must never block in a
+		// write, or two peers rejecting each other's calls over an unbuffered
+		// transport deadlock. (The request stays counted in s.incoming until
+		// processResult is done, so the connection cannot go idle before that.)
+		go c.processResult("acceptRequest", req, nil, err)
 		return
 	}
 
@@ -662,7 +666,7 @@ func (c *Connection) acceptRequest(ctx context.Context, msg *Request, msgBytes i
 		}
 	})
 	if err != nil {
-		c.processResult("acceptRequest", req, nil, err)
+		go c.processResult("acceptRequest", req, nil, err)
 	}
 }
 
